@@ -74,7 +74,7 @@ try:
     old = {}
     if os.path.exists(out + "/meta.json"):
         old = json.load(open(out + "/meta.json"))
-    for k in ("needs", "breaks", "source", "history"):
+    for k in ("needs", "breaks", "source", "history", "suite_with_change"):
         if k in old and not meta.get(k):
             meta[k] = old[k]
     # keep the record of earlier runs of the checks (before a check was strengthened)
